@@ -98,6 +98,26 @@ DESC = {
  'C16-e': ("fit_vle skips a method whose optimiser run reports success=False once any result is held", "method=None and a data set on which the most accurate method reports success=False (COBYLA on MeOH/Toluene)"),
  'C19-e': ("Membrane.calculate_activation_energy tests the TOTAL number of experiments of the membrane instead of the component's", "a component with one unstated experiment in a membrane that also holds experiments of another component"),
  'C20-e': ("Measurements.data gets the mutable default [] (shared by all default-constructed instances) and fit() appends its zero points to such an instance", "a fit with include_zero=True followed by any other fit in the same interpreter"),
+ 'C01-f': ("ideal_non_isothermal_process: with a temperature programme the temperature series starts at program(time[0]) instead of the stated initial feed temperature",
+           "a temperature programme whose value at t=0 differs from the initial feed temperature (ideal non-isothermal model)"),
+ 'C04-f': ("get_partial_pressures takes the saturation pressures from a dict keyed by component NAME (new helper Mixture.get_saturation_pressures)",
+           "a mixture whose two components carry the same name (unnamed components, isomers under one label) and different vapour-pressure constants"),
+ 'C06-f': ("DiffusionCurve.__attrs_post_init__, permeate-pressure branch: the second component's permeate partial pressure uses the WEIGHT fraction (first keeps the molar one)",
+           "a curve built from fluxes with a permeate pressure; derived permeances/selectivity of the relabelled twin"),
+ 'C08-f': ("calculate_separation_factor: feed converted to weight into a new local, but the return still divides by the ratio of the ORIGINAL composition",
+           "a molar feed composition handed to calculate_separation_factor"),
+ 'C09-f': ("ideal_diffusion_curve: keyword reordering loses permeate_temperature when the DiffusionCurve is constructed (fluxes still solved under it)",
+           "ideal_diffusion_curve called with a permeate temperature; each call site looks fine alone"),
+ 'C13-f': ("Component.get_cooling_heat: exact antiderivative replaced by the trapezoid rule (mean Cp x dT)",
+           "a heat-capacity polynomial with curvature; visible only in relations between calls (additivity, derivative)"),
+ 'C14-f': ("Permeance.convert: the two conversion tables merged and the molar mass read with getattr(component, 'molecular_weight', 1.0)",
+           "conversion FROM kg/(m2 h kPa) to SI/GPU without a component (must raise, now returns a number)"),
+ 'C15-f': ("ideal_isothermal_process switches the attrs validators off around its loop without try/finally",
+           "call history: a run that aborts with ValueError (feed exhausted / contradictory permeate spec), then Composition(p=1.5) is accepted process-wide"),
+ 'C17-f': ("ProcessModel.save writes process_model.csv with float_format='%.12f'",
+           "a persisted value below ~5e-4 (second-component permeance ~6e-6): relative error > 1e-9 after re-loading"),
+ 'C18-f': ("non_ideal_diffusion_curve switches the attrs validators off around its loop without try/finally",
+           "two calls: a non_ideal_diffusion_curve call that raises inside its loop, then a process model with a coarse step returns feed fractions outside [0,1]"),
 }
 
 
